@@ -102,7 +102,7 @@ fn gv<T: core::fmt::Display>(f: impl FnOnce() -> T) -> String {
 }
 
 /// Result<&str, StringError>
-fn s_str(g: &Guarded, r: Result<Result<&str, StringError>, ()>) -> String {
+pub fn s_str(g: &Guarded, r: Result<Result<&str, StringError>, ()>) -> String {
     match r {
         Err(()) => "PANIC".to_string(),
         Ok(Ok(s)) => format!("VAL {} {}", view(g, s), hexs(s.as_bytes())),
@@ -217,6 +217,18 @@ pub fn k_efi_mmap(ctx: &mut Ctx, g: &Guarded, t: &EFIMemoryMapTag) {
             }
         }
     }
+    // provided Iterator methods on fresh iterators: nth(k) around the number of entries, count()
+    let n = guard(|| t.memory_areas().len()).unwrap_or(0);
+    for k in [0, 1, n.saturating_sub(1), n, n + 1] {
+        let mut it = t.memory_areas();
+        let v = match guard(|| it.nth(k)) {
+            Ok(Some(d)) => format!("VAL {} len={}", view(g, d), gv(|| it.len())),
+            Ok(None) => format!("VAL none len={}", gv(|| it.len())),
+            Err(()) => "PANIC".to_string(),
+        };
+        ctx.ln("efi_nth", format!("{} {}", k, v));
+    }
+    ctx.ln("efi_count", gv(|| t.memory_areas().count()));
 }
 
 pub fn k_elf(ctx: &mut Ctx, g: &Guarded, t: &ElfSectionsTag) {
@@ -266,6 +278,22 @@ pub fn k_elf(ctx: &mut Ctx, g: &Guarded, t: &ElfSectionsTag) {
                 break;
             }
         }
+    }
+    // provided Iterator methods on fresh iterators: nth(k) around the stored entry count, count()
+    if total <= 4096 {
+        for k in [0, 1, total.saturating_sub(1), total, total + 1] {
+            let mut it = t.sections();
+            let v = match guard(|| it.nth(k)) {
+                Ok(Some(_)) => {
+                    let idx = (total - it.len() - 1) as isize;
+                    format!("VAL {} rem={}", table + idx * es, it.len())
+                }
+                Ok(None) => format!("VAL none rem={}", it.len()),
+                Err(()) => "PANIC".to_string(),
+            };
+            ctx.ln("elf_nth", format!("{} {}", k, v));
+        }
+        ctx.ln("elf_count", gv(|| t.sections().count()));
     }
 }
 
